@@ -211,7 +211,11 @@ def audit(prop):
     tmp.write_text(src)
     rc, out = sh(["lake", "env", "lean", str(tmp)], cwd=str(LEAN), timeout=900)
     if rc != 0:
-        raise Infra("axiom audit failed to run:\n" + out[-2000:])
+        # a concurrent lake invocation can replace an .olean under our feet: rebuild once and retry
+        sh(["lake", "build", *prop_modules(prop)], cwd=str(LEAN), timeout=1800)
+        rc, out = sh(["lake", "env", "lean", str(tmp)], cwd=str(LEAN), timeout=900)
+    if rc != 0:
+        raise Infra(f"axiom audit failed to run (exit {rc}):\n" + out[-2000:])
     seen = {}
     for m in re.finditer(r"'([^']+)' (?:depends on axioms: \[([^\]]*)\]|does not depend on any axioms)", out):
         axs = set(a.strip() for a in (m.group(2) or "").replace("\n", " ").split(",") if a.strip())
